@@ -979,21 +979,46 @@ Definition eff_origin (pre : option gpath) (p : gpath) : string :=
 Definition tkey (pre : option gpath) (p : gpath) : path :=
   eff_origin pre p :: to_strings pre false ++ to_strings_gp p false.
 
-Definition tstate := list (path * tv).
+(** the target's state: every leaf with the timestamp of the notification that
+    wrote it (newest value per leaf) *)
+Definition tstate := list (path * (Z * tv)).
 
-Definition tset (f : tstate) (k : path) (v : tv) : tstate :=
-  (k, v) :: filter (fun kv => negb (path_eqb (fst kv) k)) f.
+Fixpoint tlook (f : tstate) (k : path) : option (Z * tv) :=
+  match f with
+  | [] => None
+  | (k', x) :: f' => if path_eqb k k' then Some x else tlook f' k
+  end.
 
-Definition tdel (f : tstate) (d : path) : tstate :=
-  filter (fun kv => negb (qmatch d (fst kv))) f.
+Definition tset (f : tstate) (k : path) (ts : Z) (v : tv) : tstate :=
+  (k, (ts, v)) :: filter (fun kv => negb (path_eqb (fst kv) k)) f.
 
-(** gNMI semantics of one notification: deletes first, then updates *)
+(** an update older than what the leaf holds changes nothing; one that is
+    not older (same timestamp included) replaces it *)
+Definition newer (o : option (Z * tv)) (ts : Z) (v : tv) : option (Z * tv) :=
+  match o with
+  | Some (t0, v0) => if ts <? t0 then Some (t0, v0) else Some (ts, v)
+  | None => Some (ts, v)
+  end.
+
+Definition tupd (f : tstate) (k : path) (ts : Z) (v : tv) : tstate :=
+  match tlook f k with
+  | Some (t0, _) => if ts <? t0 then f else tset f k ts v
+  | None => tset f k ts v
+  end.
+
+(** a delete removes what is older than it *)
+Definition tdel (f : tstate) (d : path) (ts : Z) : tstate :=
+  filter (fun kv => negb (qmatch d (fst kv) && (fst (snd kv) <? ts))) f.
+
+(** gNMI semantics of one notification: deletes first, then updates; an update
+    the newest-value rule rejects is a no-op and does not keep the other
+    operations of its notification from taking effect *)
 Definition replay_step (f : tstate) (it : item) : tstate :=
   match it with
   | ISync => f
   | IUpd n =>
-      let f1 := fold_left (fun f d => tdel f (tkey (n_prefix n) d)) (n_deletes n) f in
-      fold_left (fun f u => tset f (tkey (n_prefix n) (fst u)) (snd u)) (n_updates n) f1
+      let f1 := fold_left (fun f d => tdel f (tkey (n_prefix n) d) (n_ts n)) (n_deletes n) f in
+      fold_left (fun f u => tupd f (tkey (n_prefix n) (fst u)) (n_ts n) (snd u)) (n_updates n) f1
   end.
 
 Definition replay (s : list item) : tstate := fold_left replay_step s [].
@@ -1001,7 +1026,7 @@ Definition replay (s : list item) : tstate := fold_left replay_step s [].
 (** how the collector presents that state: under the configured target name,
     values as the client library decodes them *)
 Definition stamp_paths (name : string) (f : tstate) : list (path * scalar) :=
-  flat_map (fun kv => match to_scalar (snd kv) with
+  flat_map (fun kv => match to_scalar (snd (snd kv)) with
                       | Some s => [(name :: fst kv, s)]
                       | None => []
                       end) f.
